@@ -318,6 +318,9 @@ func runLin(t vkit.TB, c *linCase, reps int) (overlaps int, released int) {
 			DescribeOperation: describe,
 		}
 		r := &vkit.Runner{Blocking: blocking, Exec: exec(q)}
+		r.OnHang = func(stacks string) {
+			vkit.Fail(t, tLin, "C05:hang", *c, "the program makes no progress although every context was cancelled: calls are stuck inside the library (repetition %d of %d)\n%s", i, reps, stacks)
+		}
 		h, rel := r.Run(c.Prog)
 		if rel {
 			released++
@@ -402,10 +405,28 @@ func TestQueueLinearizable(t *testing.T) {
 			ng--
 			ops = []string{"BlockingAdd", "BlockingAdd", "Len"}
 		}
+		// "add then close": consumers are parked on the empty queue; one
+		// thread adds and closes at once (items added before Close stay
+		// removable)
+		addThenClose := !contention && !closeAfterFree && rapid.IntRange(0, 7).Draw(t, "addThenClose") == 0
+		if addThenClose {
+			y := func() int { return rapid.IntRange(0, 2).Draw(t, "yield") }
+			next++
+			c.Prog.Threads = append(c.Prog.Threads, []vkit.Step{
+				{Op: "Len", Ctx: -1, Yield: 4},
+				{Op: "Add", V: next, Ctx: -1, Yield: rapid.IntRange(0, 8).Draw(t, "settle")},
+				{Op: "Close", Ctx: -1, Yield: y()},
+				{Op: "Len", Ctx: -1, Yield: y()},
+				{Op: "Remove", Ctx: -1, Yield: y()},
+			})
+			closes = 1
+			ng--
+			ops = []string{"Wait", "Receive", "Wait", "Len"}
+		}
 		for g := 0; g < ng; g++ {
 			n := rapid.IntRange(1, 7).Draw(t, "nops")
-			if closeAfterFree {
-				n = rapid.IntRange(1, 2).Draw(t, "nopsParked")
+			if closeAfterFree || addThenClose {
+				n = rapid.IntRange(1, 2).Draw(t, "nopsParkedConsumers")
 			}
 			var th []vkit.Step
 			for i := 0; i < n; i++ {
